@@ -106,6 +106,7 @@ def check_guard(ctx, key, body, adt, op):
         l = op_local(t[1])
         d = body.single_def(l) if l is not None else None
         if not d or d[2][0] != "Bin": continue
+        if any(tg not in body.can_return for tg in [t[3]] + [a[1] for a in t[2]]): continue       # an assertion restating the bound (one edge only panics)
         opn, x, y = d[2][1], d[2][2], d[2][3]
         if op == "push" and _head_read(body, x) and _is_const(body, y, name="BUFFER_SIZE"):
             found = True
